@@ -345,6 +345,8 @@ def first_lattice_divergence(mt_a, mt_b, keymap=None, tol=1e-12):
         return any(a == b for a, b in zip(lps, lps[1:]))
     ncol = max([len(la), len(lb)])
     prev_choice_tie = False  # same state, same probability, different best predecessor: an exact tie between two candidates
+    prev_choice_tie_ne = False  # ... and that state is a NON-EMITTING one (the visited-node filter of the non-emitting search
+    #                             follows the chain of best predecessors, so the choice decides which moves exist further on)
     for i in range(ncol):
         depth = max(len(la[i].o) if i in la else 0, len(lb[i].o) if i in lb else 0)
         for k in range(depth):
@@ -372,13 +374,15 @@ def first_lattice_divergence(mt_a, mt_b, keymap=None, tol=1e-12):
                     pb = {q.key for q in B[key].prev}
                     if pa != pb:
                         prev_choice_tie = True
+                        if k >= 1:
+                            prev_choice_tie_ne = True
             if kind:
                 prev_entries = []
                 for (pi, pk) in ((i, k - 1), (i - 1, 0), (i, k)):
                     if pi >= 0 and pk >= 0:
                         prev_entries += list(layer(la, pi, pk).values())
                 return {"where": (i, k), "kind": kind, "ties": prev_choice_tie or exact_ties(prev_entries) or exact_ties(list(A.values())) or exact_ties(list(B.values())),
-                        "prev_choice_tie": prev_choice_tie, "detail": detail}
+                        "prev_choice_tie": prev_choice_tie, "prev_choice_tie_ne": prev_choice_tie_ne, "detail": detail}
     return None
 
 
@@ -392,6 +396,11 @@ def order_dependence_mechanism(cfg, div):
         return None  # the width pruning itself treated tied candidates differently: never a recorded mechanism
     i, k = div["where"]
     if cfg.get("non_emitting") and (k >= 1 or div["kind"] == "entry-set"):
+        return "nonemitting-search-keeps-first-arrival-among-exact-ties"
+    if cfg.get("non_emitting") and div.get("prev_choice_tie_ne"):
+        # a non-emitting state with two EXACTLY equally probable predecessors got another best predecessor; the search's
+        # visited-node filter (_node_in_prev_ne) walks the best-predecessor chain, so a move back into one of the two tied
+        # roads exists in one run only (mirror-loop class)
         return "nonemitting-search-keeps-first-arrival-among-exact-ties"
     if cfg.get("agb"):
         return "second-order-penalties-after-exact-tie"
